@@ -781,9 +781,19 @@ class DataAccessObject(HasGeneric[T]):
         :param state: The conversion state.
         :return: A dictionary of keyword arguments derived from the base DAO and mapping.
         """
-        base = self.__class__.__bases__[0]
+        # the nearest DAO ancestor whose original class is an alternative mapping - the immediate base or one further up,
+        # like to_dao looks for it
+        base = None
+        for ancestor in self.__class__.__mro__[1:]:
+            try:
+                if self.uses_alternative_mapping(ancestor):
+                    base = ancestor
+                    break
+            except Exception:
+                # some bases are no DAOs or carry no generic information
+                continue
         base_kwargs: Dict[str, Any] = {}
-        if self.uses_alternative_mapping(base):
+        if base is not None:
             parent_dao = base()
             parent_mapper = sqlalchemy.inspection.inspect(base)
             for column in parent_mapper.columns:
